@@ -11,6 +11,7 @@
 #include "JSON.hpp"
 #include "Template.hpp"
 #include "BigInt.hpp"
+#include "QExpression.hpp"
 #include "HList.hpp"
 using namespace Qentem;
 
@@ -88,6 +89,28 @@ static Case cases[] = {
     {"json_zero_with_exponent", [] { return js_is("[0e1,0E-2,0.0e5,-0e1]", "[0,0,0,-0]"); }},
     {"json_partial_object_in_array", [] { return js_is("[{\"a\":1 x,2]", nullptr); }},
     {"json_partial_array_in_array", [] { return js_is("[[1 x,2]", nullptr); }},
+    {"json_unterminated_top_level_string", [] {
+         // UnEscape returns the whole length when the text ends inside the string; "abc\" ends in an ESCAPED quote
+         int bad = 0;
+         const char *docs[] = {"\"abc", "\"abc\\\"", "\"a\\n", " \"x", "\"abc\\\\\\\""};
+         for (const char *d : docs) {
+             if (!js_undef(d, (SizeT)strlen(d))) { printf("expected Undefined for the unterminated %s\n", d); ++bad; }
+         }
+         bad += js_is("[\"abc\\\\\"]", "[\"abc\\\\\"]");    // a string ending in an escaped backslash IS closed
+         return bad;
+     }},
+    {"json_scratch_stream_after_rejected_text", [] {
+         // the caller's scratch stream keeps the partial unescaped text of a rejected parse; the next parse must not see it
+         StringStream<char> ss;
+         const char *badd = "[\"a\\nb\\q\"]";     // rejected at the unknown escape, after "a<LF>b" was unescaped into the stream
+         Value<char> v1 = JSON::Parse(ss, badd, (SizeT)strlen(badd));
+         const char *good = "[\"hello\"]";
+         Value<char> v2 = JSON::Parse(ss, good, (SizeT)strlen(good));
+         StringStream<char> out;
+         v2.Stringify(out);
+         if (!v1.IsUndefined() || !(out == "[\"hello\"]")) { printf("expected [\"hello\"], got %.*s\n", (int)out.Length(), out.First()); return 1; }
+         return 0;
+     }},
     {"json_partial_array_in_object", [] { return js_is("{\"k\":[1 x,\"b\":2}", nullptr); }},
     // ---- C06 / C20
     {"json_surrogate_pair_high_plane", [] {
@@ -205,6 +228,50 @@ static Case cases[] = {
          const bool ok = so.IsEqual("{\"a\":1,\"c\":3}", 13) && sa.IsEqual("[1,3]", 5);
          return ok ? 0 : (printf("object: %s array: %s\n", so.First(), sa.First()), 1);
      }},
+    {"value_copy_merge_and_append_of_own_member", [] {
+         Value<char> v = JSON::Parse("[1,2,3,4]");
+         v.Merge(v);
+         Value<char> w = JSON::Parse("{\"a\":{\"x\":1},\"b\":2,\"c\":3,\"d\":4}");
+         w += *w.GetValue("a", 1);
+         return ((v.Size() == 8) && (w.Size() == 5)) ? 0 : (printf("sizes %u %u\n", (unsigned)v.Size(), (unsigned)w.Size()), 1);
+     }},
+    {"value_groupby_into_itself", [] {
+         Value<char> v = JSON::Parse("[{\"k\":1,\"x\":5},{\"k\":2,\"x\":6}]");
+         const bool ok = v.GroupBy(v, "k");
+         return (ok && v.IsObject() && (v.Size() == 2)) ? 0 : (printf("GroupBy into itself: ok=%d size=%u\n", (int)ok, (unsigned)v.Size()), 1);
+     }},
+    {"qexpression_move_assign_list_over_number", [] {
+         QExpression a;
+         a.Type                 = QExpression::ExpressionType::NaturalNumber;
+         a.Value.Number.Natural = 5;
+         QExpression b{Array<QExpression>{}, QExpression::QOperation::NoOp};
+         a = Memory::Move(b);
+         return (a.Type == QExpression::ExpressionType::SubOperation) ? 0 : 1;
+     }},
+    {"string_stepback_zero_on_empty", [] {
+         String<char> s;
+         s.StepBack(0);
+         return (s.Length() == 0) ? 0 : 1;
+     }},
+    // ---- C16: an argument that lives inside the value itself
+    {"value_assign_own_member_container", [] {
+         Value<char> a = JSON::Parse("{\"a\":{\"x\":1,\"y\":[1,2,3]},\"b\":2}");
+         a = Memory::Move(*(a["a"].GetObject()));
+         Value<char> b = JSON::Parse("[[1,2,3],4]");
+         b = Memory::Move(*(b[0].GetArray()));
+         Value<char> c = JSON::Parse("[\"a string long enough to be on the heap\",4]");
+         c = Memory::Move(*(c[0].GetString()));
+         Value<char> d = JSON::Parse("{\"a\":[1,2,3],\"b\":2}");
+         d += Memory::Move(*(d["a"].GetArray()));
+         Value<char> e;
+         e = "a string long enough to be on the heap";
+         e = e.StringStorage();
+         Value<char> f;
+         f = "a key long enough to be on the heap!!";
+         f[f.StringStorage()] = 1;
+         const bool ok = a.IsObject() && (a.Size() == 2) && b.IsArray() && (b.Size() == 3) && c.IsString() && e.IsString() && f.IsObject() && (f.Size() == 1);
+         return ok ? 0 : (printf("unexpected shape after assigning an own member\n"), 1);
+     }},
     // ---- C12 Value typestate
     {"value_remove_by_string_key", [] {
          Value<char> v = JSON::Parse("{\"abc\":1,\"d\":2}");
@@ -263,6 +330,13 @@ static Case cases[] = {
     // ---- C04 / C01 integer remainder
     // KNOWN FINDING (not repaired: EvaluateTest pins "-8^-2" == -0.015625): prints DEFECT on the current tree
     {"math_negative_base_even_negative_exponent", [] { return tp_is("{math:(-2)^-2}", "[1]", "0.25"); }},
+    {"math_naturals_above_2_63_compared", [] {
+         // NaturalNumber and IntegerNumber share their bits: ordering them through Number.Integer takes 2^64-1 for -1
+         return tp_is("{math:18446744073709551615 > 1}|{math:18446744073709551615 < 1}|{math:9223372036854775808 >= 9223372036854775807}|"
+                      "{math:(0-1) < 18446744073709551615}|{math:18446744073709551615 == (0-1)}|{math:1.5 < 18446744073709551615}|"
+                      "{math:(0-5) < (0-3)}|{math:(0-3) <= 2}|{math:7 > (0-7)}",
+                      "[1]", "1|0|1|1|0|1|1|1|1");
+     }},
     {"tmpl_array_index_must_be_digits", [] {
          return tp_is("{var:list[:]}|{var:list[4294967297]}|{var:list[]}|{var:list[1]}", "{\"list\":[10,11,12,13,14,15,16,17,18,19,20,21]}",
                       "{var:list[:]}|{var:list[4294967297]}|{var:list[]}|11");
@@ -472,6 +546,55 @@ static Case cases[] = {
              }
          }
          return bad;
+     }},
+    // ---- C01: positions that do not fit their 8-bit fields
+    {"tmpl_inline_if_more_than_255_subtags", [] {
+         std::string t = "{if case=\"0\" true=\"";
+         for (int i = 0; i < 300; i++) t += "{var:a}";
+         t += "\" false=\"{var:b}\"}";
+         Value<char> v = JSON::Parse("{\"a\":1,\"b\":2}");
+         char *buf = exact(t.data(), t.size());
+         StringStream<char> ss;
+         Template::Render(buf, (SizeT)t.size(), v, ss);
+         free(buf);
+         return 0;
+     }},
+    {"tmpl_parentheses_100000_deep", [] {
+         // one level of recursion per `(`: the depth of the machine stack is chosen by the template text
+         std::string t = "{math:" + std::string(100000, '(') + "1" + std::string(100000, ')') + "}";
+         Value<char> v;
+         StringStream<char> ss;
+         Template::Render(t.data(), (SizeT)t.size(), v, ss);
+         std::string ok = "{math:" + std::string(200, '(') + "1+1" + std::string(200, ')') + "}";
+         StringStream<char> s2;
+         Template::Render(ok.data(), (SizeT)ok.size(), v, s2);
+         if (!(s2 == "2")) { printf("expected 2 for 200 levels, got %.*s\n", (int)(s2.Length() > 40 ? 40 : s2.Length()), s2.First()); return 1; }
+         return 0;
+     }},
+    {"json_nesting_100000_deep", [] {
+         // one level of recursion per `[` or `{`
+         std::string a(100000, '[');
+         if (!js_undef(a.data(), (SizeT)a.size())) return 1;
+         std::string o;
+         for (int i = 0; i < 100000; i++) o += "{\"a\":";
+         if (!js_undef(o.data(), (SizeT)o.size())) return 1;
+         std::string ok = std::string(200, '[') + std::string(200, ']');
+         Value<char> v = JSON::Parse(ok.data(), (SizeT)ok.size());
+         if (!v.IsArray()) { printf("expected an array for 200 levels\n"); return 1; }
+         return 0;
+     }},
+    {"tmpl_loop_level_256", [] {
+         std::string t = "<loop set=\"o\" value=\"a\">";
+         for (int i = 0; i < 255; i++) t += "<if case=\"1\">";
+         t += "<loop set=\"i\" value=\"b\" sort=\"ascend\">{var:b}</loop>[{var:a}]";
+         for (int i = 0; i < 255; i++) t += "</if>";
+         t += "</loop>";
+         Value<char> v = JSON::Parse("{\"o\":[\"...\"],\"i\":[\"...\",\"...\"]}");
+         char *buf = exact(t.data(), t.size());
+         StringStream<char> ss;
+         Template::Render(buf, (SizeT)t.size(), v, ss);
+         free(buf);
+         return 0;
      }},
     // ---- C01: tag records whose 16-bit fields cannot hold the tag
     {"tmpl_inline_if_longer_than_16_bits", [] {
